@@ -30,7 +30,7 @@ func typeSetText(members ...string) string { return tsHead + strings.Join(member
 
 // tsCase: the model case of a generated text: which cases file it goes to and its term up to the observed class.
 type tsCase struct {
-	file string // "override" | "params"
+	file string // "override" | "params" | "equality" | "like" (the last two: genhier.go)
 	term string // the term without the class (last field)
 }
 
@@ -115,7 +115,8 @@ var overrideCodes = map[string]int{"PCORE_OVERRIDE_MEMBER_MISMATCH": 1, "PCORE_O
 var paramsCodes = map[string]int{"PCORE_EMPTY_TYPE_PARAMETER_LIST": 1, "PCORE_TYPE_MISMATCH": 2, "PCORE_MISSING_TYPE_PARAMETER": 3,
 	"PCORE_NOT_PARAMETERIZED_TYPE": 4}
 
-// tsClass: the class of an outcome for the model cases (CorrC06.v): 0 a type, 6 runtime fault, 7 anything else.
+// tsClass: the class of an outcome for the model cases (CorrC06.v): 0 a type, 6 runtime fault, 9 no answer within the
+// deadline, 7 anything else.
 func tsClass(o Obs, codes map[string]int) int {
 	switch o.Class {
 	case "ok":
@@ -123,6 +124,8 @@ func tsClass(o Obs, codes map[string]int) int {
 			return 7
 		}
 		return 0
+	case "timeout":
+		return 9
 	case "runtime":
 		return 6
 	case "reported":
